@@ -56,6 +56,12 @@ class FFIManager {
     // 外部モジュールが読み込まれているかチェック
     bool isForeignModuleLoaded(const std::string &module_name) const;
 
+    // 宣言された外部関数の戻り値型を取得（型推論用）。
+    // module_name が空の場合は callForeignFunction と同じ順序で全モジュールから
+    // 検索する。宣言が見つからない場合は TYPE_UNKNOWN を返す
+    TypeInfo getReturnType(const std::string &module_name,
+                           const std::string &function_name) const;
+
     // エラーメッセージ取得
     std::string getLastError() const { return last_error_; }
 
